@@ -379,4 +379,149 @@ theorem denote_updBind_at (v : Node) (p : List Text) : ∀ (T par : Node) (k : T
         List.cons_append, List.nil_append, graft, hl, Option.getD_some, hu,
         ih val par k b bid hval hv h hf hb]
 
+/-! ### the `EditM` monad, unfolded -/
+namespace EditM
+variable {α β : Type}
+@[simp] theorem pure_apply (a : α) (d : Doc) : (pure a : EditM α) d = (.ok a, d) := rfl
+@[simp] theorem bind_apply (m : EditM α) (f : α → EditM β) (d : Doc) :
+    (m >>= f) d = match m d with
+      | (.ok a, d') => f a d'
+      | (.error e, d') => (.error e, d') := rfl
+@[simp] theorem throw_apply (e : Err) (d : Doc) : (EditM.throw e : EditM α) d = (.error e, d) := rfl
+@[simp] theorem get_apply (d : Doc) : EditM.get d = (.ok d, d) := rfl
+@[simp] theorem modify_apply (f : Doc → Doc) (d : Doc) : EditM.modify f d = (.ok (), f d) := rfl
+end EditM
+
+@[simp] theorem fresh_apply (d : Doc) : fresh d = (.ok d.next, { d with next := d.next + 1 }) := rfl
+@[simp] theorem assign_apply (bid : Nat) (v : Node) (d : Doc) : assign bid v d = (.ok (), d.updBind bid v) := rfl
+@[simp] theorem appendValue_apply (sid : Nat) (b : Node) (d : Doc) :
+    appendValue sid b d = (.ok (), d.updSet sid fun
+      | .set s vs o m r => .set s (vs ++ [b]) o m r
+      | n => n) := rfl
+@[simp] theorem appendOrder_apply (sid : Nat) (x : Node) (d : Doc) :
+    appendOrderIfNonEmpty sid x d = (.ok (), d.updSet sid fun
+      | .set s vs o m r => if o.isEmpty then .set s vs o m r else .set s vs (o ++ [x]) m r
+      | n => n) := rfl
+
+@[simp] theorem Doc.updSet_target (sid : Nat) (f : Node → Node) (d : Doc) :
+    (d.updSet sid f).target = Node.updSet sid f d.target := rfl
+@[simp] theorem Doc.updBind_target (id : Nat) (v : Node) (d : Doc) :
+    (d.updBind id v).target = Node.updBind id v d.target := rfl
+@[simp] theorem Doc.updSet_next (sid : Nat) (f : Node → Node) (d : Doc) : (d.updSet sid f).next = d.next := rfl
+@[simp] theorem Doc.updBind_next (id : Nat) (v : Node) (d : Doc) : (d.updBind id v).next = d.next := rfl
+
+
+/-- `values.append(b)` -/
+def appF (nb : Node) : Node → Node
+  | .set s vs o m r => .set s (vs ++ [nb]) o m r
+  | n => n
+/-- `if attrpath_order: attrpath_order.append(x)` -/
+def ordF (x : Node) : Node → Node
+  | .set s vs o m r => if o.isEmpty then .set s vs o m r else .set s vs (o ++ [x]) m r
+  | n => n
+
+theorem appendValue_eq (sid : Nat) (b : Node) (d : Doc) :
+    appendValue sid b d = (.ok (), d.updSet sid (appF b)) := by
+  rfl
+theorem appendOrder_eq (sid : Nat) (x : Node) (d : Doc) :
+    appendOrderIfNonEmpty sid x d = (.ok (), d.updSet sid (ordF x)) := by
+  rfl
+
+mutual
+  /-- two mutations of the same object in a row are one mutation -/
+  theorem updSet_updSet_same (c : Nat) (f g : Node → Node)
+      (hf : ∀ vs o m r, (f (.set c vs o m r)).setSid? = some c) :
+      (x : Node) → updSet c g (updSet c f x) = updSet c (g ∘ f) x
+    | .atom _ => rfl
+    | .ident _ => rfl
+    | .inherit _ _ => rfl
+    | .entry sg l b a => by simp only [updSet, updSet_updSet_same c f g hf l]
+    | .bind i n ne v b a => by simp only [updSet, updSet_updSet_same c f g hf v]
+    | .set s vs o m r => by
+      by_cases h : s = c
+      · subst h
+        obtain ⟨vs', o', m', r', e⟩ := setSid_some _ _ (hf vs o m r)
+        simp only [updSet, if_true, Function.comp, e]
+      · simp only [updSet, h, if_false, updSetL_updSetL_same c f g hf vs, updSetL_updSetL_same c f g hf o]
+  theorem updSetL_updSetL_same (c : Nat) (f g : Node → Node)
+      (hf : ∀ vs o m r, (f (.set c vs o m r)).setSid? = some c) :
+      (xs : List Node) → updSetL c g (updSetL c f xs) = updSetL c (g ∘ f) xs
+    | [] => rfl
+    | x :: xs => by simp only [updSetL, updSet_updSet_same c f g hf x, updSetL_updSetL_same c f g hf xs]
+end
+
+
+/-- the fields an attribute-level operation leaves alone -/
+def Frame (d d' : Doc) : Prop := d'.noTarget = d.noTarget ∧ (d.scratch = none → d'.scratch = none)
+
+theorem Frame.refl (d : Doc) : Frame d d := ⟨rfl, id⟩
+theorem Frame.trans {a b c : Doc} (h1 : Frame a b) (h2 : Frame b c) : Frame a c :=
+  ⟨h2.1.trans h1.1, fun h => h2.2 (h1.2 h)⟩
+theorem Frame.updSet (d : Doc) (c : Nat) (f : Node → Node) : Frame d (d.updSet c f) :=
+  ⟨rfl, fun h => by simp [Doc.updSet, h]⟩
+theorem Frame.updBind (d : Doc) (i : Nat) (v : Node) : Frame d (d.updBind i v) :=
+  ⟨rfl, fun h => by simp [Doc.updBind, h]⟩
+theorem Frame.next (d : Doc) (n : Nat) : Frame d { d with next := n } := ⟨rfl, id⟩
+
+theorem setSetItem_fresh (s : Node) (key : Text) (v : Node) (c : Nat) (d : Doc)
+    (h1 : findBinding s.setValues key = none) (h2 : s.setSid? = some c) :
+    ∃ d', setSetItem s key v d = (.ok (), d') ∧ Frame d d' ∧ d'.next = d.next + 1 ∧
+      d'.target = updSet c (ordF (.bind d.next key false v [] []) ∘ appF (.bind d.next key false v [] []))
+        d.target := by
+  have e : setSetItem s key v d = (.ok (), ((({ d with next := d.next + 1 } : Doc).updSet c
+      (appF (.bind d.next key false v [] []))).updSet c (ordF (.bind d.next key false v [] [])))) := by
+    simp only [setSetItem, h1, h2, EditM.bind_apply, fresh_apply, appendValue_eq, appendOrder_eq]
+  refine ⟨_, e, ?_, rfl, ?_⟩
+  · exact (Frame.next d _).trans ((Frame.updSet _ _ _).trans (Frame.updSet _ _ _))
+  · simp only [Doc.updSet_target]
+    rw [updSet_updSet_same]
+    intro vs o m r; rfl
+
+theorem denote_ordF_appF (nb : Node) (s : Nat) (vs o : List Node) (m r : Bool) :
+    denote ((ordF nb ∘ appF nb) (.set s vs o m r)) = .node (denoteL vs ++ denoteI nb) := by
+  simp only [Function.comp, appF, ordF]
+  split <;> simp
+
+theorem isSet_iff (n : Node) : n.isSet = true ↔ ∃ s vs o m r, n = .set s vs o m r := by
+  cases n <;> simp [isSet]
+
+/-- value shapes that make `set` write through a reference (C11's business) -/
+def isIdentNode : Node → Bool | .ident _ => true | _ => false
+
+theorem assignExisting_plain (ts parent : Node) (wl : Bool) (i : Nat) (k : Text) (ne : Bool) (val : Node)
+    (bf af : Payload) (v : Node) (d : Doc) (h : isIdentNode val = false) :
+    assignExisting ts parent wl (.bind i k ne val bf af) v d = (.ok (), d.updBind i v) := by
+  cases val <;> first | (simp [isIdentNode] at h; done) | rfl
+
+/-- The last step of `set` on the set `par` found at path `p`: the binding named `k` is given the value,
+    or appended when there is none. -/
+theorem finalSet_denote (ts par : Node) (wl : Bool) (p : List Text) (k : Text) (v : Node) (d : Doc)
+    (hid : IdsOK d.target) (hk : KeysOK d.target) (hp : subAt d.target p = some par)
+    (hset : par.isSet = true)
+    (hni : ∀ b, findBinding par.setValues k = some b → ∀ val, b.bindValue? = some val → isIdentNode val = false)
+    (hinh : inheritMentions par.setValues k = false) :
+    ∃ d', (∀ b, findBinding par.setValues k = some b → assignExisting ts par wl b v d = (.ok (), d')) ∧
+      (findBinding par.setValues k = none → setSetItem par k v d = (.ok (), d')) ∧
+      Frame d d' ∧ d'.next ≤ d.next + 1 ∧
+      denote d'.target = graft p (.node (Kids.upsert k (denote v) (denote par).kids)) (denote d.target) := by
+  obtain ⟨c, vs, o, m, r, rfl⟩ := (isSet_iff par).mp hset
+  have htp := treeAt_denote p d.target _ hk hp
+  cases hf : findBinding (Node.set c vs o m r).setValues k with
+  | some b =>
+    obtain ⟨i, ne, val, bf, af, pre, post, rfl, hvs, hpre⟩ := findBinding_some _ _ _ hf
+    have hv := hni _ hf val rfl
+    refine ⟨d.updBind i v, ?_, by simp, Frame.updBind _ _ _, by simp, ?_⟩
+    · intro b hb; injection hb with hb; subst hb
+      exact assignExisting_plain _ _ _ _ _ _ _ _ _ _ _ hv
+    simp only [Doc.updBind_target]
+    rw [denote_updBind_at v p d.target _ k _ i hid hk hp hf rfl,
+      graft_append p [k] _ _ _ htp, denote_set, graft_single]
+    rfl
+  | none =>
+    obtain ⟨d', e, hfr, hn, ht⟩ := setSetItem_fresh (Node.set c vs o m r) k v c d hf rfl
+    refine ⟨d', by simp, fun _ => e, hfr, by omega, ?_⟩
+    rw [ht, denote_updSet_at _ p d.target _ c hid hk hp rfl, denote_ordF_appF]
+    have : k ∉ Kids.keys (denoteL vs) := not_mem_keys_denoteL k vs (findBinding_none _ _ hf) hinh
+    simp only [denote_set, AttrTree.kids, denoteI_bind, Kids.upsert_of_not_mem k _ _ this]
+
 end Nima
